@@ -137,6 +137,7 @@ PROPS = {
             dict(name="TestPersistDurable", quick=200, thorough=12000, shards_thorough=2, shrinktime="15s"),
             dict(name="TestEnumOptionOrders", quick=1, thorough=1, shards_thorough=1, rapid=False),
             dict(name="TestAbortedPublish", quick=2500, thorough=200000, shards_thorough=8),
+            dict(name="TestShapes", quick=1500, thorough=100000, shards_thorough=4),
         ],
     ),
     "C13": dict(
